@@ -86,3 +86,21 @@ PROPERTIES["C18"] = {
     "prepare": _c18_prepare,
     "runs": _c18_runs,
 }
+
+
+# ---------------------------------------------------------------- chains (C06, and the chain parts of C05/C07/C04)
+
+CHAINS_HARNESS = _h(("internal/zzverif/hchains/zz_verif_chains.go", "harness/hchains/zz_verif_chains.go"))
+
+PROPERTIES["C06"] = {
+    "level_text": "Bounded symbolic execution + SMT of each language's REAL pass chain ((*Language).CompilerPasses() of go/java/php/python/typescript, run through "
+                  "compiler.Passes.Process) on symbolic schemas; the language's normal-form predicate (no union / enums and structs only as named objects / "
+                  "non-required => nullable / no `T|null` union / enum member naming) is asserted at every depth of every object of the result.",
+    "level_note": "Bounds: one package, 3 objects; main object over the grammar {scalar, constant, null, ref, enum, array, map, struct<=2, union of 2} at depth 1 (quick) / 2 (thorough) "
+                  "plus a width-1 deep-spine family of depth 2/3; Nullable/Required symbolic. Chains that return an error are outside the property. User-supplied final passes are outside.",
+    "bounds": {"main object": "T(1) quick / T(2) thorough + deep spine 2/3", "objects": 3, "leaves": "Nullable, Required, scalar kind, enum member names/values symbolic"},
+    "runs": [Run("chains", ["./internal/zzverif/hchains"], CHAINS_HARNESS,
+                 ["VerifC06Go", "VerifC06Java", "VerifC06PHP", "VerifC06Python", "VerifC06TypeScript",
+                  "VerifC06GoSpine", "VerifC06JavaSpine", "VerifC06PHPSpine", "VerifC06PythonSpine"],
+                 "internal/zzverif/hchains", test_pkg_name="hchains", needs_leaf=True)],
+}
